@@ -56,7 +56,13 @@ _built = set()
 NO_INTERNALS = set()
 
 
-def _cargo_build(config, package, internals):
+OPTIONAL = ["internals", "simd_extras"]  # default features of vh that depend on non-API details of /repo
+# tried in this order: everything, then without one, then without both
+OPTIONAL_SETS = [("internals", "simd_extras"), ("internals",), ("simd_extras",), ()]
+NO_EXTRAS = set()
+
+
+def _cargo_build(config, package, optional):
     c = CONFIGS[config]
     tdir = os.path.join(BUILD, c["target"] + ("-nohooks" if HOOKS_OFF else ""))
     binp = os.path.join(tdir, profile_dir(c["profile"]), package)
@@ -66,8 +72,9 @@ def _cargo_build(config, package, internals):
     elif c["profile"] != "dev":
         cmd += ["--profile", c["profile"]]
     feats = list(c["features"])
-    if not internals:
+    if package == "vh" and tuple(optional) != OPTIONAL_SETS[0]:
         cmd.append("--no-default-features")
+        feats += list(optional)
     if feats:
         cmd += ["--features", ",".join(feats)]
     p = subprocess.run(cmd, cwd=HARNESS, env=cargo_env(c["rustflags"]), stdout=subprocess.PIPE, stderr=subprocess.STDOUT, text=True)
@@ -77,11 +84,26 @@ def _cargo_build(config, package, internals):
 _binpath = {}
 
 
+def _note_degraded(config, optional, hooks_off):
+    what = []
+    if "internals" not in optional:
+        NO_INTERNALS.add(config)
+        what.append("cipher internals (public state fields of the ChaCha ciphers changed)")
+    if "simd_extras" not in optional:
+        NO_EXTRAS.add(config)
+        what.append("the non-trait extras of the x86 SIMD types (conversions / == / Default no longer there)")
+    if hooks_off:
+        what.append("the verification hooks (the guarded hook code no longer compiles): H1/H2 unavailable")
+    if what:
+        log("[build] %s builds only WITHOUT %s" % (config, " and WITHOUT ".join(what)))
+
+
 def build(config, package="vh"):
     """(Re)build one configuration from /repo's current working tree; returns the binary path.
 
     Degrades instead of failing when a change to the repository breaks only what the harness hooks into:
-    1. without the harness feature `internals` (public state fields of the ChaCha ciphers changed);
+    1. without the harness features `internals` (public state fields of the ChaCha ciphers changed) and/or
+       `simd_extras` (impls of the x86 vector types outside the Machine trait vocabulary removed);
     2. without the hooks (`--cfg cryptocorrosion_verif` off everywhere: the guarded hook code in /repo no
        longer compiles) - forced back ends (H1) and counter fast-forwarding (H2) are then unavailable.
     """
@@ -90,25 +112,20 @@ def build(config, package="vh"):
     if key in _built:
         return _binpath[key]
     t0 = time.time()
-    ok, binp, out = _cargo_build(config, package, True)
+    ok, binp, out = _cargo_build(config, package, OPTIONAL_SETS[0])
     if not ok and package == "vh":
-        ok2, binp2, _ = _cargo_build(config, package, False)
-        if ok2:
-            log("[build] %s builds only WITHOUT cipher internals (public state fields of the ChaCha ciphers changed)" % config)
-            NO_INTERNALS.add(config)
-            ok, binp = True, binp2
-        elif not HOOKS_OFF:
-            HOOKS_OFF = True
-            for internals in (True, False):
-                ok3, binp3, _ = _cargo_build(config, package, internals)
-                if ok3:
-                    log("[build] %s builds only WITHOUT the verification hooks (the guarded hook code no longer compiles): H1/H2 unavailable" % config)
-                    if not internals:
-                        NO_INTERNALS.add(config)
-                    ok, binp = True, binp3
+        for hooks_off in ([HOOKS_OFF] if HOOKS_OFF else [False, True]):
+            prev = HOOKS_OFF
+            HOOKS_OFF = hooks_off
+            for optional in (OPTIONAL_SETS if hooks_off and not prev else OPTIONAL_SETS[1:]):
+                ok2, binp2, _ = _cargo_build(config, package, optional)
+                if ok2:
+                    _note_degraded(config, optional, hooks_off and not prev)
+                    ok, binp = True, binp2
                     break
-            if not ok:
-                HOOKS_OFF = False
+            if ok:
+                break
+            HOOKS_OFF = prev
     if not ok:
         raise Machinery("build of configuration %s failed:\n%s" % (config, out[-4000:]))
     log("[build] %s (%s) %.1fs%s" % (config, package, time.time() - t0, " [hooks off]" if HOOKS_OFF else ""))
@@ -458,6 +475,22 @@ def subsets(xs):
     return out
 
 
+def c20_probe_jobs(tier):
+    """(features, rustflags, target dir) of every probe build of C20"""
+    pf = ["chacha_std", "chacha_no_simd", "chacha_simd", "blake_std", "jh_std", "groestl_std", "ppv_std", "ppv_no_simd", "ppv_simd"]  # vprobe's own `std` only in the STD set
+    if tier == "thorough":
+        sets = subsets(pf)
+    else:
+        sets = [STD, [], STD + ["ppv_no_simd"], ["ppv_no_simd"], ["chacha_simd", "ppv_simd"], ["blake_std"], ["groestl_std"], ["chacha_no_simd", "jh_std"], ["chacha_std", "ppv_std", "chacha_simd", "ppv_simd", "blake_std", "jh_std", "groestl_std"]]
+    # Groestl (not one of C03's dispatching algorithms) selects its implementation by its `std` feature and,
+    # with std off, by cfg(target_feature): every C20 probe is built with it, plus one point per
+    # compile-time arm of its own ladder (sse2 = no flags, ssse3, aes)
+    jobs = [(fs, "", os.path.join(BUILD, "c20p-%d" % (k % 8))) for k, fs in enumerate(sets)]
+    jobs.append(([], "-Ctarget-feature=+ssse3", os.path.join(BUILD, "c20p-tf-ssse3")))
+    jobs.append(([], "-Ctarget-feature=+ssse3,+sse4.1,+aes", os.path.join(BUILD, "c20p-tf-aes")))
+    return jobs
+
+
 def plan_c20(tier):
     from concurrent.futures import ThreadPoolExecutor
     t0 = time.time()
@@ -506,47 +539,39 @@ def plan_c20(tier):
             viol.append(dict(sig="c20:build:%s:%s" % (name, "+".join(sub) if sub else "(none)"), detail="cargo check -p %s --no-default-features --features '%s' fails: %s" % (name, ",".join(sub), err[:300]), replay=dict(package=name, features=sub), count=1 + sum(1 for f in failing if f > set(sub))))
     log("[c20] %d feature-lattice builds %.1fs" % (nbuilds, time.time() - t0))
     # ---- features must only select implementations: probe fingerprints ----
-    pf = ["chacha_std", "chacha_no_simd", "chacha_simd", "blake_std", "jh_std", "ppv_std", "ppv_no_simd", "ppv_simd"]  # vprobe's own `std` only in the STD set
-    if tier == "thorough":
-        sets = subsets(pf)
-    else:
-        sets = [STD, [], STD + ["ppv_no_simd"], ["ppv_no_simd"], ["chacha_simd", "ppv_simd"], ["blake_std"], ["chacha_no_simd", "jh_std"], ["chacha_std", "ppv_std", "chacha_simd", "ppv_simd", "blake_std", "jh_std"]]
-    shared = {tuple(sorted(v[0])): n for n, v in PROBE_CONFIGS.items() if not v[1]}
-    jobs = []
-    for k, fs in enumerate(sets):
-        key = tuple(sorted(fs))
-        jobs.append((fs, os.path.join(BUILD, shared[key]) if key in shared else os.path.join(BUILD, "probe-misc-%d" % (k % 8))))
+    jobs = c20_probe_jobs(tier)
     # builds in the same target dir must be sequential: group by dir
     bydir = {}
-    for fs, d in jobs:
-        bydir.setdefault(d, []).append(fs)
+    for fs, flags, d in jobs:
+        bydir.setdefault(d, []).append((fs, flags))
 
     def run_dir(item):
         d, fss = item
         out = []
-        for fs in fss:
-            binp, err = build_probe(None, fs, "", tdir=d)
-            out.append((fs, run_probe(binp) if binp else None, err))
+        for fs, flags in fss:
+            binp, err = build_probe(None, fs + ["groestl"], flags, tdir=d)
+            out.append((fs, flags, run_probe(binp) if binp else None, err))
         return out
 
-    with ThreadPoolExecutor(max_workers=8) as ex:
+    with ThreadPoolExecutor(max_workers=10) as ex:
         pres = [x for chunk in ex.map(run_dir, bydir.items()) for x in chunk]
     ref_fp, pts, total, cases = None, [], 0, 0
-    pres.sort(key=lambda x: (x[0] != STD, len(x[0]), x[0]))
-    for fs, r, err in pres:
-        point = "features[" + ",".join(fs) + "]"
+    pres.sort(key=lambda x: (x[0] != STD, bool(x[1]), len(x[0]), x[0]))
+    for fs, flags, r, err in pres:
+        point = "features[" + ",".join(fs) + "]" + (flags.replace("-Ctarget-feature=", "/target-feature=") if flags else "")
         if r is None:
-            viol.append(dict(sig="c20:probe:%s:does-not-build" % point, detail=err[-500:], replay=dict(features=fs), count=1))
+            errs = [l for l in err.splitlines() if l.startswith("error")]
+            viol.append(dict(sig="c20:probe:%s:does-not-build" % point, detail="the probe (std-less Groestl included) does not build in this configuration: " + ("; ".join(errs[:3]) if errs else err[-500:]), replay=dict(features=fs, rustflags=flags), count=1))
             continue
         fp = probe_violations("c20:probe", point, r, ref_fp, viol)
         if not r.get("crashed"):
-            machine_violation("c20:probe", point, r, fs, "", 0, viol)
+            machine_violation("c20:probe", point, r, fs, flags, 0, viol)
         if ref_fp is None:
             ref_fp = fp
         if not r.get("crashed"):
             total += r["cases"]
             cases = r["cases"]
-        pts.append(dict(features=fs, machine=r.get("machine"), fingerprint=r.get("fingerprint"), cases=r.get("cases")))
+        pts.append(dict(features=fs, rustflags=flags, machine=r.get("machine"), fingerprint=r.get("fingerprint"), cases=r.get("cases")))
     # threefish no_unroll selects an implementation too: C09's domain on that build
     r9 = dict(evaluations=0)
     try:
@@ -559,7 +584,7 @@ def plan_c20(tier):
     except Machinery as e:
         viol.append(secondary_build_failure("C20", "nounroll", str(e)))
     res = dict(config="lattice", evaluations=nbuilds + total + r9["evaluations"], distinct_nontrivial=nbuilds + len(pts), exhaustive=True, violations=viol, wall_s=time.time() - t0,
-               rule="(1) for each of the 9 workspace packages the declared features (cargo metadata, incl. the implicit features of optional dependencies, 'default' excluded) are read and EVERY subset is built with cargo check --lib --no-default-features --features <subset> (minimal failing sets are reported); (2) the probe of C03 is built with %s of the implementation-selecting features {chacha std/no_simd/simd, blake std, jh std, ppv-lite86 std/no_simd/simd} and its fingerprint must equal the all-std fingerprint, and the dispatched Machine must be the portable one exactly when a no_simd feature is on; (3) Threefish with no_unroll runs C09's and C10's domains against the model. distinct_nontrivial = lattice points built + probe points run." % ("every subset (256)" if tier == "thorough" else "8 chosen subsets"),
+               rule="(1) for each of the 9 workspace packages the declared features (cargo metadata, incl. the implicit features of optional dependencies, 'default' excluded) are read and EVERY subset is built with cargo check --lib --no-default-features --features <subset> (minimal failing sets are reported); (2) the probe of C03, here with Groestl-224/256/384/512 added, is built with %s of the implementation-selecting features {chacha std/no_simd/simd, blake std, jh std, groestl std, ppv-lite86 std/no_simd/simd}, and with std off also for the other two arms of Groestl's compile-time ladder (-Ctarget-feature=+ssse3 and +ssse3,+sse4.1,+aes); its fingerprint must equal the all-std fingerprint, and the dispatched Machine must be the portable one exactly when a no_simd feature is on; (3) Threefish with no_unroll runs C09's and C10's domains against the model. distinct_nontrivial = lattice points built + probe points run." % ("every subset (512)" if tier == "thorough" else "9 chosen subsets"),
                samples=lattice[:2] + lattice[-2:] + pts[:2], extra=dict(lattice_builds=nbuilds, lattice=lattice, probe_points=pts, reference_fingerprint=ref_fp, c09_no_unroll_evaluations=r9["evaluations"]),
                assumptions=["stable toolchain and x86-64 target of this sandbox only", "supersets of a failing minimal feature set are attributed to it"])
     return finish("C20", tier, "exploration", [res], t0)
@@ -645,6 +670,11 @@ def main(argv):
                 for n, (b, err) in zip(PROBE_CONFIGS, ex.map(lambda n: build_probe(n, PROBE_CONFIGS[n][0], PROBE_CONFIGS[n][1]), list(PROBE_CONFIGS))):
                     if b is None:
                         log("[setup] probe configuration %s does not build (reported by C03/C20 as a finding)" % n)
+            bydir = {}
+            for fs, flags, d in c20_probe_jobs("quick"):
+                bydir.setdefault(d, []).append((fs, flags))
+            with ThreadPoolExecutor(max_workers=10) as ex:
+                list(ex.map(lambda it: [build_probe(None, fs + ["groestl"], flags, tdir=it[0]) for fs, flags in it[1]], bydir.items()))
             selftest()
             import tsan
             secs, err = tsan.build()
